@@ -67,7 +67,7 @@ def r1(ctx):
         if ok:
             w = next(x.value for x in miss if isinstance(x, ast.Expr) and isinstance(x.value, ast.Call) and u(x.value.func) == "log.warning")
             names = {n.id for n in ast.walk(w) if isinstance(n, ast.Name)}
-            ctx.check("include" in names and "e" in names, "finder:find:-include:message-names-file", "the warning must name the requested file and the compiled file", find.loc(w))
+            ctx.soft("include" in names and "e" in names, "finder:find:-include:message-names-file", "the warning must name the requested file and the compiled file", find.loc(w))
     # R5: the resolver itself never logs (so its memo cannot swallow or duplicate a warning)
     fif = repo.cls("platform", "Platform").find_method("find_include_file")
     logs = [c for c in fif.calls() if (dotted(c.func) or "").startswith("log.")]
@@ -90,7 +90,7 @@ def r2(ctx):
                 n += 1
                 logged = any(isinstance(x, ast.Expr) and isinstance(x.value, ast.Call) and u(x.value.func) in ("log.warning", "log.error") for x in blk[:i])
                 ctx.check(logged, f"config:ArgumentParser.__init__:return:{_cond_of(init.node, s)}", "the constructor gives up on the compiler without reporting it", init.loc(s))
-    ctx.check(n >= 3, "config:ArgumentParser.__init__:early-returns", f"expected the unknown-compiler / alias-loop / dangling-alias exits, found {n}", init.loc())
+    ctx.soft(n >= 3, "config:ArgumentParser.__init__:early-returns", f"expected the unknown-compiler / alias-loop / dangling-alias exits, found {n}", init.loc())
     pa = repo.cls("config", "ArgumentParser").find_method("parse_args")
     for blk in _blocks(pa.node):
         for i, s in enumerate(blk):
@@ -108,7 +108,7 @@ def r2(ctx):
             ctx.violation(f"config:load_database:remembered-across-entries:{name}", f"`{name}` survives from one entry to the next: what was reported (or resolved) for one entry suppresses the report for a later one", ld.loc(loop))
     # unknown options
     t = u(pa.node)
-    ctx.check("if unrecognized:\n        log.warning(" in t or re.search(r"if unrecognized:\s+log\.warning\(", t) is not None, "config:ArgumentParser.parse_args:unrecognized-warned", "unrecognised arguments must be warned about", pa.loc())
+    ctx.soft("if unrecognized:\n        log.warning(" in t or re.search(r"if unrecognized:\s+log\.warning\(", t) is not None, "config:ArgumentParser.parse_args:unrecognized-warned", "unrecognised arguments must be warned about", pa.loc())
     ctx.floor(8)
 
 
@@ -150,26 +150,33 @@ def r3(ctx):
         "quote/angle form": any("is_system_include" in d for d in deps),
     }
     for what, ok in need.items():
-        ctx.check(ok, f"preprocessor:IncludeNode.evaluate_for_platform:message:{what}", f"the include warning does not mention the {what}", f.loc(warn[0]))
+        ctx.soft(ok, f"preprocessor:IncludeNode.evaluate_for_platform:message:{what}", f"the include warning does not mention the {what}", f.loc(warn[0]))
     kinds = [v for v in env.get("kind", [])]
     ok = kinds == ["'system include' if is_system_include else 'user include'"]
-    ctx.check(ok, "preprocessor:IncludeNode.evaluate_for_platform:kind", f"kind must be 'system include' for <> and 'user include' for quotes: {kinds}", f.loc())
+    ctx.soft(ok, "preprocessor:IncludeNode.evaluate_for_platform:kind", f"kind must be 'system include' for <> and 'user include' for quotes: {kinds}", f.loc())
     # directive warning
     g = repo.func("file_parser", "FileParser.insert_directive_node")
     warn = [c for c in g.calls() if u(c.func) == "log.warning"]
     ctx.require(len(warn) == 1, "insert_directive_node: warning call not found")
     txt = u(warn[0])
     for what in ("filename", "line", "column", "message"):
-        ctx.check("{" + what + "}" in txt, f"file_parser:FileParser.insert_directive_node:message:{what}", f"the unrecognised-directive warning does not mention {what}", g.loc(warn[0]))
+        ctx.soft("{" + what + "}" in txt, f"file_parser:FileParser.insert_directive_node:message:{what}", f"the unrecognised-directive warning does not mention {what}", g.loc(warn[0]))
     envg = {u(s.targets[0]): u(s.value) for s in walk_no_nested(g.node) if isinstance(s, ast.Assign)}
     ok = envg.get("unhandled") == "['line', 'warning', 'error']"
     ctx.check(ok, "file_parser:FileParser.insert_directive_node:exemptions", f"only #line, #warning and #error may be ignored silently: {envg.get('unhandled')}", g.loc())
     ifs = [s for s in walk_no_nested(g.node) if isinstance(s, ast.If) and "unhandled" in u(s.test)]
     ok = len(ifs) == 1 and u(ifs[0].test) == "len(tokens) >= 2 and str(tokens[1]) not in unhandled"
-    ctx.check(ok, "file_parser:FileParser.insert_directive_node:exemption-test", "the exemption test must compare the directive name (second token) with the exemption list", g.loc())
+    ctx.soft(ok, "file_parser:FileParser.insert_directive_node:exemption-test", "the exemption test must compare the directive name (second token) with the exemption list", g.loc())
     outer = [s for s in walk_no_nested(g.node) if isinstance(s, ast.If) and u(s.test) == "isinstance(new_node, preprocessor.UnrecognizedDirectiveNode)"]
-    ctx.check(len(outer) == 1 and any(x is warn[0] for x in ast.walk(outer[0])), "file_parser:FileParser.insert_directive_node:unrecognized-only", "exactly the unrecognised directives must be warned about", g.loc())
+    ctx.soft(len(outer) == 1 and any(x is warn[0] for x in ast.walk(outer[0])), "file_parser:FileParser.insert_directive_node:unrecognized-only", "exactly the unrecognised directives must be warned about", g.loc())
     ctx.floor(11)
+
+
+from ..spec import tab as _tab0, tv as _tv
+
+
+def _tab(review, f):
+    return _tab0(f)
 
 
 @rule("C18.R4", "warning totals: category regexes, level test, and the aggregator installed as a filter on exactly one handler")
@@ -196,7 +203,7 @@ def r4(ctx):
     ctx.check(sorted(kinds) == ["system include", "user include"], "preprocessor:IncludeNode:kind-strings", f"kind strings are {kinds}", f.loc())
     insp = repo.cls("_detail.logging", "MetaWarning").find_method("inspect")
     uses_search = any(u(c.func) == "self.regex.search" for c in insp.calls())
-    ctx.check(uses_search and any(u(c.args[0]) == "record.msg" for c in insp.calls() if u(c.func) == "self.regex.search"), "_detail.logging:MetaWarning.inspect:search-msg", "a category matches when its regex is found in the record's message", insp.loc())
+    ctx.soft(uses_search and any(u(c.args[0]) == "record.msg" for c in insp.calls() if u(c.func) == "self.regex.search"), "_detail.logging:MetaWarning.inspect:search-msg", "a category matches when its regex is found in the record's message", insp.loc())
     for name, msg in templates.items():
         hits = [r.pattern for r in comp if r.search(msg)]
         want = ["."] + ([name] if name in ("user include", "system include") else [])
@@ -210,17 +217,53 @@ def r4(ctx):
         own = const(c.args[0])
         others = [r.pattern for r in comp if r.pattern not in (".", own) and r.search(text.format(1))]
         ctx.check(not others, f"_detail.logging:WarningAggregator:meta-text:{own}", f"the closing message of category {own!r} is itself matched by {others}", init.loc())
-    # counts: +1 per matching record; warn prints count
-    t = u(insp.node)
-    ctx.check("self._count += 1" in t, "_detail.logging:MetaWarning.inspect:counts", "every matching record must increase the count by one", insp.loc())
+    # counts: +1 per matching record; filter inspects exactly the WARNING records with every category and keeps
+    # every record; warn prints the count iff non-zero  (decided on the decision tables: robust to re-arrangement)
+    from .. import review
+
+    mw = repo.cls("_detail.logging", "MetaWarning")
+    for p in _tab(review, insp):
+        hit = p.atoms.get("self.regex.search(record.msg)")
+        incs = [e for e in p.effects if e[0] in ("aug", "store") and e[1] == "self._count"]
+        key = f"_detail.logging:MetaWarning.inspect:counts:match={_tv(hit)}"
+        if hit is None or len(p.atoms) != 1:
+            raise AnalysisError(f"MetaWarning.inspect: table shape not recognised: {p.describe()[:160]}")
+        if hit:
+            ok = len(incs) == 1 and incs[0][0] == "aug" and incs[0][2] == "Add" and vtext(incs[0][3]) == "1"
+        else:
+            ok = not incs
+        ctx.check(ok, key, f"every record whose message matches the category (and no other) must increase the count by exactly one: {p.describe()[:160]}", insp.loc())
     flt = wa.find_method("filter")
-    t = u(flt.node)
-    ok = "if record.levelno == logging.WARNING:" in t and "meta_warning.inspect(record)" in t and t.rstrip().endswith("return True")
-    ctx.check(ok, "_detail.logging:WarningAggregator.filter:level-equals-warning", "the filter must inspect exactly the records whose level equals WARNING and never drop a record", flt.loc())
-    w = repo.cls("_detail.logging", "MetaWarning").find_method("warn")
-    t = u(w.node)
-    ok = "if self._count == 0:\n        return" in t and "logger.warning(self.msg.format(self._count))" in t
-    ctx.check(ok, "_detail.logging:MetaWarning.warn:prints-count", "a category is reported iff its count is non-zero, with that count", w.loc())
+    for p in _tab(review, flt):
+        lvl = p.atoms.get("logging.WARNING Eq record.levelno")
+        other = [k for k in p.atoms if not k.startswith("more(self.meta_warnings#") and k != "logging.WARNING Eq record.levelno"]
+        n_cat = sum(1 for k, v in p.atoms.items() if k.startswith("more(self.meta_warnings#") and v)
+        calls = [e for e in p.effects if e[0] == "call" and str(e[1]).endswith(".inspect")]
+        key = f"_detail.logging:WarningAggregator.filter:level-equals-warning:warning={_tv(lvl)},categories={n_cat}"
+        ok = lvl is not None and not other and p.result == ("return", True)
+        if ok and lvl:
+            ok = [e[1] for e in calls] == [f"self.meta_warnings[{i}].inspect" for i in range(n_cat)] and all(vtext(e[2]) == flt.params[1] for e in calls)
+        elif ok:
+            ok = not calls
+        ctx.check(ok, key, f"the filter must hand exactly the records whose level equals WARNING to every category once, and never drop a record: {p.describe()[:200]}", flt.loc())
+    w = mw.find_method("warn")
+    for p in _tab(review, w):
+        zero = p.atoms.get("0 Eq self._count")
+        if zero is None:
+            t0 = p.atoms.get("self._count")
+            zero = None if t0 is None else (not t0)
+        calls = [e for e in p.effects if e[0] == "call" and str(e[1]).endswith(".warning")]
+        key = f"_detail.logging:MetaWarning.warn:prints-count:zero={_tv(zero)}"
+        if zero is None or len(p.atoms) != 1:
+            raise AnalysisError(f"MetaWarning.warn: table shape not recognised: {p.describe()[:160]}")
+        ok = (not calls) if zero else (len(calls) == 1 and vtext(calls[0][2]) == "self.msg.format(self._count)")
+        ctx.check(ok, key, f"a category is reported iff its count is non-zero, with that count: {p.describe()[:160]}", w.loc())
+    aw = wa.find_method("warn")
+    for p in _tab(review, aw):
+        n_cat = sum(1 for k, v in p.atoms.items() if k.startswith("more(self.meta_warnings#") and v)
+        calls = [e for e in p.effects if e[0] == "call" and str(e[1]).endswith(".warn")]
+        ok = [e[1] for e in calls] == [f"self.meta_warnings[{i}].warn" for i in range(n_cat)] and all(k.startswith("more(self.meta_warnings#") for k in p.atoms)
+        ctx.check(ok, f"_detail.logging:WarningAggregator.warn:every-category:{n_cat}", f"every category must be asked to report, unconditionally: {p.describe()[:160]}", aw.loc())
     # wiring in the front ends
     for short, q in (("__main__", "_main"), ("coverage.__main__", "cli")):
         g = repo.func(short, q)
@@ -229,13 +272,13 @@ def r4(ctx):
         ok = len(adds) == 1 and u(adds[0].func.value) == "file_handler"
         ctx.check(ok, key, f"the aggregator must be a filter of exactly one handler (the log-file handler): installed on {[u(c.func.value) for c in adds]} - every additional handler (or the logger itself) counts each warning again", g.loc())
         made = [s for s in walk_no_nested(g.node) if isinstance(s, ast.Assign) and u(s.targets[0]) == "aggregator"]
-        ctx.check(len(made) == 1 and u(made[0].value) == "WarningAggregator()", f"{g.key}:aggregator-fresh", "a fresh WarningAggregator per run", g.loc())
+        ctx.soft(len(made) == 1 and u(made[0].value) == "WarningAggregator()", f"{g.key}:aggregator-fresh", "a fresh WarningAggregator per run", g.loc())
         lvl = [c for c in g.calls() if u(c.func) == "file_handler.setLevel"]
         ok = len(lvl) == 1 and u(lvl[0].args[0]) in ("min_log_level", "logging.INFO", "logging.DEBUG", "logging.WARNING")
-        ctx.check(ok, f"{g.key}:file-handler-level", "the log-file handler must let warnings through (level <= WARNING)", g.loc())
+        ctx.soft(ok, f"{g.key}:file-handler-level", "the log-file handler must let warnings through (level <= WARNING)", g.loc())
     m = repo.func("__main__", "_main")
     order = [u(c.func) for c in sorted(m.calls(), key=lambda c: (c.lineno, c.col_offset)) if u(c.func) in ("finder.find", "aggregator.warn")]
-    ctx.check(order == ["finder.find", "aggregator.warn"], "__main__:_main:totals-after-analysis", f"the totals must be printed once, after the analysis: {order}", m.loc())
+    ctx.soft(order == ["finder.find", "aggregator.warn"], "__main__:_main:totals-after-analysis", f"the totals must be printed once, after the analysis: {order}", m.loc())
     if True:
         mn = [s for s in walk_no_nested(m.node) if isinstance(s, ast.If) and u(s.test) == "args.debug"]
         levels = {u(s.targets[0]): u(s.value) for s in walk_no_nested(m.node) if isinstance(s, ast.Assign) and u(s.targets[0]) == "min_log_level"}
